@@ -316,7 +316,8 @@ def run(ctx):
             spk_ = {'p2pkh': b'\x76\xa9\x14' + h_ + b'\x88\xac', 'p2wpkh': b'\x00\x14' + h_,
                     'p2sh_p2wpkh': b'\xa9\x14' + txgen._h160(b'\x00\x14' + h_) + b'\x87'}[kind_]
             # the output being spent is named by its address or - equally key-less - by its scriptPubKey
-            form_ = rng.choice(['address', 'address', 'locking_script'])
+            # (a P2SH scriptPubKey alone does not say what is nested in it: a nested input is named by its address form)
+            form_ = rng.choice(['address', 'address', 'locking_script']) if kind_ != 'p2sh_p2wpkh' else 'address'
             ctx.count('key-less-input:' + form_)
             if form_ == 'address':
                 t.add_input(txid_, n_, address=addr_, value=val_, witness_type=wt_)
